@@ -2,7 +2,7 @@
    object / of the wrapped transport / acquired which lock, in global order) is replayed through the multi-task pump
    model of Conc/TlsPump.v; the model must emit the same actions on the wrapped transport and the BIOs, and the same
    result for every pumped call. *)
-From EN Require Import Lib.Bytes Lib.Sx Conc.TlsBase Conc.TlsPump Gen.ParamsC08.
+From EN Require Import Lib.Bytes Lib.Sx Conc.TlsBase Conc.TlsPump Conc.TlsEof Gen.ParamsC08.
 Open Scope Z_scope.
 
 Definition zeros (n : nat) : bytes := repeat 0%N n.
@@ -74,8 +74,52 @@ Definition run_trace (labs : list sx) : sx :=
       L [L (map enc_act acts); L (map enc_task (y_tasks y)); of_nat (length (wbio (y_sh y)));
          of_bool (send_lock (y_sh y)); of_bool (recv_lock (y_sh y))].
 
+(* blocking transport: every thread's calls against its own sub-sequence of the raw SSL answers *)
+Definition dec_sop (x : sx) : option op :=
+  match x with
+  | L [A 0; _] => Some OWrap
+  | L [A 1; A n] => Some (ORecv (Z.to_nat n))
+  | L [A 2; A n] => Some (ORecvInto (Z.to_nat n))
+  | L [A 3; L _] => Some (OSend [])
+  | L [A 4; _] => Some OClose
+  | _ => None
+  end.
+
+Definition dec_sans (x : sx) : option sans :=
+  match x with
+  | L [A m; A code; A v] =>
+      match dec_meth m, dec_out code (Z.to_nat v) with
+      | Some m', Some o => Some {| s_meth := m'; s_out := o |}
+      | _, _ => None
+      end
+  | _ => None
+  end.
+
+Definition enc_xres (r : apires) : sx :=
+  match r with
+  | Ret v => L [A 1; A 0; of_nat v]
+  | Raise (XR x) =>
+      L [A 1; A 1; A (match x with
+                      | XWantRead => 1 | XWantWrite => 2 | XSsl e => sslerr_code e | XOSError => 9 | XOther => 10
+                      end)]
+  | Raise XTimeout => L [A 1; A 1; A 11]
+  | Raise XCancelled => L [A 1; A 1; A 12]
+  | Desync => L [A 1; A 2; A 0]
+  end.
+
+Definition run_thread (std : bool) (x : sx) : sx :=
+  match x with
+  | L [L ops; L answers] =>
+      do ops' <- map_opt dec_sop ops;
+      do ans' <- map_opt dec_sans answers;
+      let '(ob, rest) := sync_ops true std ops' {| s_closed := false |} ans' in
+      L (fold_right (fun o acc => match o with SRes r => enc_xres r :: acc | _ => acc end) [] ob)
+  | _ => bad_input
+  end.
+
 Definition run (x : sx) : sx :=
   match x with
+  | L (A 1 :: A std :: L threads :: _) => L [L (map (run_thread (Z.eqb std 1)) threads)]
   (* a trace recorded for one state of the lost-wakeup fix (flag) is only meaningful in that state *)
   | L (L labs :: L (B _ :: A flag :: _) :: _) =>
       if Bool.eqb (Z.eqb flag 1) recheck_after_recv_lock then run_trace labs else L [A 777]
